@@ -10,7 +10,7 @@ G1 lookup: exact name first, synonyms case-insensitively, wildcards on request;
 T1 no silent narrowing of an integer value.
 """
 from ..linrel import Lin, GE, LE, GT, LT, infeasible, entails
-from ..cfg import Facts, kids, strip, walk, cv, render, short_loc, call_args, TRANSPARENT
+from ..cfg import Facts, kids, strip, walk, cv, render, short_loc, call_args, TRANSPARENT, call_object
 from ..facts import export_many, AnalysisBroken
 from .. import units
 
@@ -341,6 +341,64 @@ def run(rep, ctx):
     if not ps:
         raise AnalysisBroken("BasicSolver::ParseOptionString not found")
     g = ps[0]
+    # ---- B1: the option-name copy stays inside its buffer ------------------------------------------------
+    b1 = rep.rule("C11.B1", "RANGE", "every element written in the option-name buffer lies below the size the buffer was resized to", floor=2)
+    gb = ps[0]
+    bufs = [v for v in gb.walk() if v["k"] == "VarDecl" and "MemoryBuffer<" in (v.get("ct") or "")]
+    if len(bufs) != 1:
+        raise AnalysisBroken("C11.B1: %d MemoryBuffer locals in ParseOptionString" % len(bufs))
+    bid = bufs[0]["declId"]
+
+    def aff_(e):
+        e = strip(e)
+        c_ = cv(e)
+        if c_ is not None and e["k"] != "DeclRefExpr":
+            return {"": float(c_)} if c_ else {}
+        if e["k"] == "BinaryOperator" and e.get("op") in ("+", "-"):
+            a_, b_ = aff_(kids(e)[0]), aff_(kids(e)[1])
+            out = dict(a_)
+            for t_, v_ in b_.items():
+                out[t_] = out.get(t_, 0.0) + (v_ if e["op"] == "+" else -v_)
+            return {t_: v_ for t_, v_ in out.items() if v_}
+        return {render(e).replace(" ", ""): 1.0}
+    resz = [c for c in gb.walk() if c["k"] == "CXXMemberCallExpr" and (c.get("callee") or "").split("::")[-1] == "resize" and strip(call_object(c)).get("declId") == bid]
+    subs = [n for n in gb.walk() if n["k"] == "CXXOperatorCallExpr" and n.get("op") == "[]" and strip(call_args(n)[0]).get("declId") == bid]
+    writes = [n for n in subs if (gb.parent.get(n["i"]) or {}).get("k") == "BinaryOperator" and gb.parent[n["i"]].get("op") == "=" and kids(gb.parent[n["i"]])[0] is n]
+    if not writes:
+        raise AnalysisBroken("C11.B1: no element write into the name buffer")
+    growers = [c for c in gb.walk() if c["k"] == "CXXMemberCallExpr" and (c.get("callee") or "").split("::")[-1] in ("append", "push_back", "reserve", "clear") and strip(call_object(c)).get("declId") == bid]
+    for w in writes:
+        idx = call_args(w)[1]
+        ia = aff_(idx)
+        dom = [r for r in resz if gb.cfg.dominates(r, w)]
+        ok = False
+        why = "no dominating resize()"
+        if dom and not [g_ for g_ in growers if gb.cfg.before(dom[-1], g_) and gb.cfg.before(g_, w)]:
+            size = aff_(call_args(dom[-1])[0])
+            diff = dict(size)
+            for t_, v_ in ia.items():
+                diff[t_] = diff.get(t_, 0.0) - v_
+            diff = {t_: v_ for t_, v_ in diff.items() if v_}
+            if set(diff) <= {""} and diff.get("", 0.0) >= 1:
+                ok = True                      # index = size - k, k >= 1
+            else:
+                # loop index bounded by a fact  i < N  with N <= size - 1 ... N < size
+                for cid, pol in gb.cfg.facts_at(w):
+                    cn = strip(gb.nodes[cid])
+                    if pol and cn["k"] == "BinaryOperator" and cn.get("op") == "<" and aff_(kids(cn)[0]) == ia:
+                        bound = aff_(kids(cn)[1])
+                        d2 = dict(size)
+                        for t_, v_ in bound.items():
+                            d2[t_] = d2.get(t_, 0.0) - v_
+                        d2 = {t_: v_ for t_, v_ in d2.items() if v_}
+                        if set(d2) <= {""} and d2.get("", 0.0) >= 0:
+                            ok = True
+                why = "index %s is not shown to be below the size %s" % (render(idx), render(call_args(dom[-1])[0]))
+        elif dom:
+            why = "the buffer is changed again between resize() and the write"
+        b1.check(ok, "write|%s" % render(idx).replace(" ", "")[:30], short_loc(w.get("l")), "name[%s] lies below the resized length" % render(idx),
+                 "ParseOptionString writes name[%s]: %s - for names filling the buffer's capacity the terminating NUL lands one element past it" % (render(idx), why))
+
     parses = [c for c in g.walk() if c["k"] == "CXXMemberCallExpr" and
               c.get("callee", "").split("::")[-1] in ("Parse", "SetValue")]
     if not parses:
